@@ -211,36 +211,39 @@ Proof.
   unfold pt_update. destruct m; [|destruct (list_Z_eqb d (pt_data pt))]; intros U; injection U as <- <-; cbn; auto.
 Qed.
 
+Section Inv.
+Context (X : prod -> Prop).
+
 (* ------------------------------------------------------------------ frame lemmas for the state setters *)
 Lemma inv_frame s s' p :
-  inv s ->
+  inv X s ->
   (forall q, q <> p -> task_of s' q = task_of s q) ->
-  (forall q pt, q <> p -> current s q pt -> current s' q pt) ->
+  (forall q pt, q <> p -> current X s q pt -> current X s' q pt) ->
   AInv (st_bus s') (task_of s') ->
-  (forall pt, task_of s' p = Some pt -> current s' p pt) ->
-  inv s'.
+  (forall pt, task_of s' p = Some pt -> current X s' p pt) ->
+  inv X s'.
 Proof.
   intros [A C] T K A' C'. split; auto. intros q pt Hq. destruct (prod_eq_dec q p) as [->|N]; auto.
   apply K; auto. apply C. rewrite <- T; auto.
 Qed.
 
 Lemma frame_sync s b y q : q <> PSync ->
-  task_of (set_sync s b y) q = task_of s q /\ forall pt, current s q pt -> current (set_sync s b y) q pt.
+  task_of (set_sync s b y) q = task_of s q /\ forall pt, current X s q pt -> current X (set_sync s b y) q pt.
 Proof. destruct q; try congruence; intros _; split; auto. Qed.
 
 Lemma frame_hb s b h q : q <> PHb ->
-  task_of (set_hb s b h) q = task_of s q /\ forall pt, current s q pt -> current (set_hb s b h) q pt.
+  task_of (set_hb s b h) q = task_of s q /\ forall pt, current X s q pt -> current X (set_hb s b h) q pt.
 Proof. destruct q; try congruence; intros _; split; auto. Qed.
 
 Lemma frame_guard s b g q : q <> PGuard ->
-  task_of (set_guard s b g) q = task_of s q /\ forall pt, current s q pt -> current (set_guard s b g) q pt.
+  task_of (set_guard s b g) q = task_of s q /\ forall pt, current X s q pt -> current X (set_guard s b g) q pt.
 Proof. destruct q; try congruence; intros _; split; auto. Qed.
 
 Lemma frame_pdo s b i pd q : q <> PPdo i ->
-  task_of (set_pdo s b i pd) q = task_of s q /\ forall pt, current s q pt -> current (set_pdo s b i pd) q pt.
+  task_of (set_pdo s b i pd) q = task_of s q /\ forall pt, current X s q pt -> current X (set_pdo s b i pd) q pt.
 Proof.
   destruct q as [| | |j]; intros N; try (split; auto; fail).
-  assert (j <> i) by congruence. unfold set_pdo; cbn. rewrite nth_error_upd_neq by auto. split; auto.
+  assert (j <> i) by congruence. unfold set_pdo, current; cbn. rewrite nth_error_upd_neq by auto. split; auto.
 Qed.
 
 Lemma task_set_pdo s b i pd pd0 : nth_error (st_pdos s) i = Some pd0 ->
@@ -250,7 +253,7 @@ Proof. intros H. cbn. rewrite nth_error_upd_eq, H. cbn. auto. Qed.
 Ltac framed L := first [ intros ? ? ; apply L; assumption | intros ? ? ? ; apply L; assumption ].
 
 (* ------------------------------------------------------------------ SyncProducer *)
-Lemma inv_sync_stop s : inv s -> inv (sync_stop s).
+Lemma inv_sync_stop s : inv X s -> inv X (sync_stop s).
 Proof.
   intros I. unfold sync_stop. apply inv_frame with (s := s) (p := PSync); auto; try framed frame_sync.
   - destruct I as [A _]. change (st_bus (set_sync s ?b ?y)) with b.
@@ -258,20 +261,21 @@ Proof.
   - cbn. discriminate.
 Qed.
 
-Lemma inv_sync_start s p : inv s -> inv (fst (sync_start s p)).
+Lemma inv_sync_start s p : inv X s -> inv X (fst (sync_start s p)).
 Proof.
   intros I. unfold sync_start.
   destruct (match p with Some x => Some x | None => sy_period (st_sync s) end) as [x|] eqn:P; [|exact I].
   destruct (x =? 0) eqn:Z; cbn [fst].
   - apply inv_frame with (s := s) (p := PSync); auto; try framed frame_sync.
     + destruct I as [A _]. eapply AInv_ext; [exact A|]. intros q; destruct q; reflexivity.
-    + intros pt H. destruct I as [_ C]. specialize (C PSync pt H). cbn in C |- *.
-      destruct C as (c1 & c2 & c3 & c4 & _). repeat split; auto. exists x. split; auto. intros; lia.
+    + intros pt H. destruct I as [_ C]. specialize (C PSync pt H). destruct C as [C _].
+      split; [exact C|]. intros _. cbn. exists x. split; auto. intros; lia.
   - unfold send_periodic. destruct (st_conn s) eqn:Cn; cbn [fst].
     + apply inv_frame with (s := s) (p := PSync); auto; try framed frame_sync.
       * destruct I as [A _]. change (st_bus (set_sync s ?b ?y)) with b. rewrite stop_opt_length.
         apply (AInv_restart (st_bus s) (task_of s) _ PSync _ _ _ _ A); [reflexivity|]. intros; apply frame_sync; auto.
-      * intros pt H. cbn in H. injection H as <-. cbn. repeat split; auto; try lia. exists x. split; auto.
+      * intros pt H. cbn in H. injection H as <-. split; [cbn; repeat split; auto; lia|].
+        intros _. cbn. exists x. split; auto.
     + apply inv_frame with (s := s) (p := PSync); auto; try framed frame_sync.
       * destruct I as [A _]. change (st_bus (set_sync s ?b ?y)) with b.
         apply (AInv_stop_opt (st_bus s) (task_of s) _ PSync A); [reflexivity|]. intros; apply frame_sync; auto.
@@ -279,7 +283,7 @@ Proof.
 Qed.
 
 (* ------------------------------------------------------------------ NmtMaster node guarding *)
-Lemma inv_guard_stop s : inv s -> inv (guard_stop s).
+Lemma inv_guard_stop s : inv X s -> inv X (guard_stop s).
 Proof.
   intros I. unfold guard_stop. apply inv_frame with (s := s) (p := PGuard); auto; try framed frame_guard.
   - destruct I as [A _]. change (st_bus (set_guard s ?b ?y)) with b.
@@ -287,13 +291,13 @@ Proof.
   - cbn. discriminate.
 Qed.
 
-Lemma inv_guard_start s p : inv s -> inv (fst (guard_start s p)).
+Lemma inv_guard_start s p : inv X s -> inv X (fst (guard_start s p)).
 Proof.
   intros I. unfold guard_start, send_periodic. destruct (st_conn s) eqn:Cn; cbn [fst].
   - apply inv_frame with (s := s) (p := PGuard); auto; try framed frame_guard.
     + destruct I as [A _]. change (st_bus (set_guard s ?b ?y)) with b. rewrite stop_opt_length.
       apply (AInv_restart (st_bus s) (task_of s) _ PGuard _ _ _ _ A); [reflexivity|]. intros; apply frame_guard; auto.
-    + intros pt H. cbn in H. injection H as <-. cbn. auto.
+    + intros pt H. cbn in H. injection H as <-. split; cbn; auto.
   - apply inv_frame with (s := s) (p := PGuard); auto; try framed frame_guard.
     + destruct I as [A _]. change (st_bus (set_guard s ?b ?y)) with b.
       apply (AInv_stop_opt (st_bus s) (task_of s) _ PGuard A); [reflexivity|]. intros; apply frame_guard; auto.
@@ -303,15 +307,15 @@ Qed.
 (* ------------------------------------------------------------------ NmtSlave heartbeat *)
 (* [h0] is the heartbeat record as the method finds it: same handle and node as in [s], possibly a new NMT state *)
 Lemma inv_hb_start s h0 ms b1 h1 r :
-  inv s -> hb_task h0 = hb_task (st_hb s) -> hb_node h0 = hb_node (st_hb s) ->
-  hb_start1 (st_conn s) (st_bus s) h0 ms = (b1, h1, r) -> inv (set_hb s b1 h1).
+  inv X s -> hb_task h0 = hb_task (st_hb s) -> hb_node h0 = hb_node (st_hb s) ->
+  hb_start1 (st_conn s) (st_bus s) h0 ms = (b1, h1, r) -> inv X (set_hb s b1 h1).
 Proof.
   intros I Ht Hn. unfold hb_start1, send_periodic.
   destruct (0 <? ms) eqn:P; [destruct (st_conn s) eqn:Cn|]; intros E; injection E as <- <- <-.
   - apply inv_frame with (s := s) (p := PHb); auto; try framed frame_hb.
     + destruct I as [A _]. change (st_bus (set_hb s ?b ?y)) with b. rewrite stop_opt_length, Ht.
       apply (AInv_restart (st_bus s) (task_of s) _ PHb _ _ _ _ A); [reflexivity|]. intros; apply frame_hb; auto.
-    + intros pt H. cbn in H. injection H as <-. cbn. repeat split; auto; lia.
+    + intros pt H. cbn in H. injection H as <-. split; [cbn; repeat split; auto; lia|cbn; auto].
   - apply inv_frame with (s := s) (p := PHb); auto; try framed frame_hb.
     + destruct I as [A _]. change (st_bus (set_hb s ?b ?y)) with b. rewrite Ht.
       apply (AInv_stop_opt (st_bus s) (task_of s) _ PHb A); [reflexivity|]. intros; apply frame_hb; auto.
@@ -323,8 +327,8 @@ Proof.
 Qed.
 
 Lemma inv_hb_stop s h0 b1 h1 :
-  inv s -> hb_task h0 = hb_task (st_hb s) ->
-  hb_stop1 (st_bus s) h0 = (b1, h1) -> inv (set_hb s b1 h1).
+  inv X s -> hb_task h0 = hb_task (st_hb s) ->
+  hb_stop1 (st_bus s) h0 = (b1, h1) -> inv X (set_hb s b1 h1).
 Proof.
   intros I Ht. unfold hb_stop1. intros E; injection E as <- <-.
   apply inv_frame with (s := s) (p := PHb); auto; try framed frame_hb.
@@ -334,8 +338,8 @@ Proof.
 Qed.
 
 Lemma inv_hb_update s h0 b1 h1 :
-  inv s -> hb_task h0 = hb_task (st_hb s) -> hb_node h0 = hb_node (st_hb s) -> hb_ms h0 = hb_ms (st_hb s) ->
-  hb_update1 (st_modify s) (st_bus s) h0 = (b1, h1) -> inv (set_hb s b1 h1).
+  inv X s -> hb_task h0 = hb_task (st_hb s) -> hb_node h0 = hb_node (st_hb s) -> hb_ms h0 = hb_ms (st_hb s) ->
+  hb_update1 (st_modify s) (st_bus s) h0 = (b1, h1) -> inv X (set_hb s b1 h1).
 Proof.
   intros I Ht Hn Hm. unfold hb_update1. destruct (hb_task h0) as [pt|] eqn:T.
   - destruct (pt_update (st_modify s) (st_bus s) pt [hb_state h0]) as [b' pt'] eqn:U.
@@ -347,8 +351,9 @@ Proof.
       intros; apply frame_hb; auto.
     + intros qt H. cbn in H. injection H as <-.
       destruct I as [_ C].
-      specialize (C PHb pt H0). cbn in C. destruct C as (c1 & c2 & c3 & c4 & _).
-      apply pt_update_fields in U as (u1 & u2 & u3 & u4). cbn. rewrite u1, u2, u3, u4, Hn, Hm. auto.
+      specialize (C PHb pt H0). destruct C as [C _]. cbn in C. destruct C as (c1 & c2 & c3 & c4 & _).
+      apply pt_update_fields in U as (u1 & u2 & u3 & u4). split; [|cbn; auto].
+      cbn. rewrite u1, u2, u3, u4, Hn, Hm. auto.
   - intros E; injection E as <- <-.
     apply inv_frame with (s := s) (p := PHb); auto; try framed frame_hb.
     + destruct I as [A _]. eapply AInv_ext; [exact A|]. intros q; destruct q; cbn; auto. congruence.
@@ -357,16 +362,16 @@ Qed.
 
 (* the NMT state alone changes while the network is disconnected (boot-up message raises) *)
 Lemma inv_hb_state_disconnected s st :
-  inv s -> st_conn s = false ->
-  inv (set_hb s (st_bus s) (hb_set (st_hb s) st (hb_ms (st_hb s)) (hb_obj (st_hb s)) (hb_task (st_hb s)))).
+  inv X s -> st_conn s = false ->
+  inv X (set_hb s (st_bus s) (hb_set (st_hb s) st (hb_ms (st_hb s)) (hb_obj (st_hb s)) (hb_task (st_hb s)))).
 Proof.
   intros I Cn. apply inv_frame with (s := s) (p := PHb); auto; try framed frame_hb.
   - destruct I as [A _]. eapply AInv_ext; [exact A|]. intros q; destruct q; reflexivity.
-  - intros pt H. destruct I as [_ C]. specialize (C PHb pt H). cbn in C |- *.
-    destruct C as (c1 & c2 & c3 & c4 & _). repeat split; auto. rewrite Cn. discriminate.
+  - intros pt H. destruct I as [_ C]. specialize (C PHb pt H). destruct C as [C _]. cbn in C.
+    destruct C as (c1 & c2 & c3 & c4 & _). split; [|cbn; auto]. cbn. repeat split; auto. rewrite Cn. discriminate.
 Qed.
 
-Lemma inv_nmt_cmd s code : inv s -> inv (fst (nmt_cmd s code)).
+Lemma inv_nmt_cmd s code : inv X s -> inv X (fst (nmt_cmd s code)).
 Proof.
   intros I. unfold nmt_cmd.
   destruct ((new_state code (hb_state (st_hb s)) =? 0) && negb (st_conn s)) eqn:B.
@@ -377,13 +382,13 @@ Proof.
     + destruct (hb_update1 _ _ _) as [b1 h1] eqn:E. cbn [fst]. eapply inv_hb_update; [exact I| | | |exact E]; reflexivity.
 Qed.
 
-Lemma inv_nmt_recv s code node : inv s -> inv (fst (nmt_recv s code node)).
+Lemma inv_nmt_recv s code node : inv X s -> inv X (fst (nmt_recv s code node)).
 Proof.
   intros I. unfold nmt_recv. destruct (hb_update1 _ _ _) as [b1 h1] eqn:E. cbn [fst]. eapply inv_hb_update; [exact I| | | |exact E]; reflexivity.
 Qed.
 
-Lemma inv_hb_obj s b h obj : inv (set_hb s b h) ->
-  inv (set_hb s b (hb_set h (hb_state h) (hb_ms h) obj (hb_task h))).
+Lemma inv_hb_obj s b h obj : inv X (set_hb s b h) ->
+  inv X (set_hb s b (hb_set h (hb_state h) (hb_ms h) obj (hb_task h))).
 Proof.
   intros I. apply inv_frame with (s := set_hb s b h) (p := PHb).
   - exact I.
@@ -393,25 +398,25 @@ Proof.
   - intros pt H. destruct I as [_ C]. apply (C PHb pt H).
 Qed.
 
-Lemma inv_obj_write s idx v : inv s -> inv (fst (obj_write s idx v)).
+Lemma inv_obj_write s idx v : inv X s -> inv X (fst (obj_write s idx v)).
 Proof.
   intros I. unfold obj_write. destruct ((v <? 0) || (65535 <? v)); [exact I|].
   destruct (idx =? HB_TIME_INDEX); [|exact I]. destruct (v =? 0).
   - destruct (hb_stop1 _ _) as [b1 h1] eqn:E. cbn [fst]. apply inv_hb_obj. eapply inv_hb_stop; [exact I| |exact E]; reflexivity.
   - destruct (hb_start1 _ _ _ _) as [[b1 h1] r] eqn:E.
-    assert (inv (set_hb s b1 h1)) by (eapply inv_hb_start; [exact I| | |exact E]; reflexivity).
+    assert (inv X (set_hb s b1 h1)) by (eapply inv_hb_start; [exact I| | |exact E]; reflexivity).
     destruct r; cbn [fst]; [exact H | apply inv_hb_obj; exact H].
 Qed.
 
 (* ------------------------------------------------------------------ PdoMap *)
 (* [pd0] is the map as the method finds it: same handle as stored in [s] (its payload may differ) *)
 Lemma inv_pdo_start s i pd pd0 p b1 pd1 r :
-  inv s -> nth_error (st_pdos s) i = Some pd -> pd_task pd0 = pd_task pd ->
-  pdo_start1 (st_conn s) (st_bus s) pd0 p = (b1, pd1, r) -> inv (set_pdo s b1 i pd1).
+  inv X s -> nth_error (st_pdos s) i = Some pd -> pd_task pd0 = pd_task pd ->
+  pdo_start1 (st_conn s) (st_bus s) pd0 p = (b1, pd1, r) -> inv X (set_pdo s b1 i pd1).
 Proof.
   intros I Hi Ht. unfold pdo_start1, send_periodic.
   assert (task_of s (PPdo i) = pd_task pd0) as T0 by (cbn; rewrite Hi; auto).
-  assert (forall per, inv (set_pdo s (stop_opt (st_bus s) (pd_task pd0)) i
+  assert (forall per, inv X (set_pdo s (stop_opt (st_bus s) (pd_task pd0)) i
                              (mkPd (pd_cob pd0) (pd_nvars pd0) (pd_data pd0) per None))) as STOP.
   { intros per. apply inv_frame with (s := s) (p := PPdo i); auto; try framed frame_pdo.
     - destruct I as [A _]. change (st_bus (set_pdo s ?b ?j ?y)) with b. rewrite <- T0.
@@ -431,13 +436,14 @@ Proof.
           [mkB (pd_cob pd0) (pd_data pd0) x false true]) i
           (mkPd (pd_cob pd0) (pd_nvars pd0) (pd_data pd0) (Some x)
              (Some (mkP (length (stop_opt (st_bus s) (pd_task pd0))) (pd_cob pd0) (pd_data pd0) x false))) pd Hi) as [T1 N1].
-      rewrite T1 in H. injection H as <-. cbn [current]. eexists. split; [exact N1|]. cbn. repeat split; auto. lia.
+      rewrite T1 in H. injection H as <-. split; [cbn; split; auto; lia|].
+      intros _. cbn [attrs_current]. eexists. split; [exact N1|]. cbn. auto.
   - intros E; injection E as <- <- <-. apply STOP.
 Qed.
 
 Lemma inv_pdo_stop s i pd b1 pd1 :
-  inv s -> nth_error (st_pdos s) i = Some pd ->
-  pdo_stop1 (st_bus s) pd = (b1, pd1) -> inv (set_pdo s b1 i pd1).
+  inv X s -> nth_error (st_pdos s) i = Some pd ->
+  pdo_stop1 (st_bus s) pd = (b1, pd1) -> inv X (set_pdo s b1 i pd1).
 Proof.
   intros I Hi. unfold pdo_stop1. intros E; injection E as <- <-.
   assert (task_of s (PPdo i) = pd_task pd) as T0 by (cbn; rewrite Hi; auto).
@@ -450,9 +456,9 @@ Proof.
 Qed.
 
 Lemma inv_pdo_update s i pd pd0 b1 pd1 :
-  inv s -> nth_error (st_pdos s) i = Some pd ->
+  inv X s -> nth_error (st_pdos s) i = Some pd ->
   pd_task pd0 = pd_task pd -> pd_cob pd0 = pd_cob pd -> pd_period pd0 = pd_period pd ->
-  pdo_update1 (st_modify s) (st_bus s) pd0 = (b1, pd1) -> inv (set_pdo s b1 i pd1).
+  pdo_update1 (st_modify s) (st_bus s) pd0 = (b1, pd1) -> inv X (set_pdo s b1 i pd1).
 Proof.
   intros I Hi Ht Hc Hp. unfold pdo_update1.
   assert (task_of s (PPdo i) = pd_task pd0) as T0 by (cbn; rewrite Hi; auto).
@@ -467,10 +473,11 @@ Proof.
     + intros qt H.
       destruct (task_set_pdo s b' i (mkPd (pd_cob pd0) (pd_nvars pd0) (pd_data pd0) (pd_period pd0) (Some pt')) pd Hi) as [T1 N1].
       rewrite T1 in H. injection H as <-.
-      destruct I as [_ C]. specialize (C (PPdo i) pt T0). cbn [current] in C.
-      destruct C as (pd' & e1 & c1 & c2 & c3 & c4). rewrite Hi in e1. injection e1 as <-.
+      destruct I as [_ C]. specialize (C (PPdo i) pt T0). destruct C as [[c1 c2] CA].
       apply pt_update_fields in U as (u1 & u2 & u3 & u4).
-      cbn [current]. eexists. split; [exact N1|]. cbn. rewrite u1, u3, u4, Hc, Hp. auto.
+      split; [cbn; rewrite u3, u4; auto|].
+      intros NX. destruct (CA NX) as (pd' & e1 & a1 & a2). rewrite Hi in e1. injection e1 as <-.
+      cbn [attrs_current]. eexists. split; [exact N1|]. cbn. rewrite u1, u3, Hc, Hp. auto.
   - intros E; injection E as <- <-.
     apply inv_frame with (s := s) (p := PPdo i); auto; try framed frame_pdo.
     + destruct I as [A _]. eapply AInv_ext; [exact A|]. intros q.
@@ -481,7 +488,7 @@ Proof.
 Qed.
 
 Lemma inv_pdo_data s i pd d :
-  inv s -> nth_error (st_pdos s) i = Some pd -> inv (set_pdo s (st_bus s) i (pd_set_data pd d)).
+  inv X s -> nth_error (st_pdos s) i = Some pd -> inv X (set_pdo s (st_bus s) i (pd_set_data pd d)).
 Proof.
   intros I Hi.
   apply inv_frame with (s := s) (p := PPdo i); auto; try framed frame_pdo.
@@ -492,9 +499,35 @@ Proof.
   - intros pt H. destruct (task_set_pdo s (st_bus s) i (pd_set_data pd d) pd Hi) as [T1 N1].
     rewrite T1 in H. cbn in H.
     destruct I as [_ C]. assert (task_of s (PPdo i) = Some pt) as T0 by (cbn; rewrite Hi; auto).
-    specialize (C (PPdo i) pt T0). cbn [current] in C.
-    destruct C as (pd' & e1 & c1 & c2 & c3 & c4). rewrite Hi in e1. injection e1 as <-.
-    cbn [current]. eexists. split; [exact N1|]. cbn. auto.
+    specialize (C (PPdo i) pt T0). destruct C as [CF CA]. split; [exact CF|].
+    intros NX. destruct (CA NX) as (pd' & e1 & a1 & a2). rewrite Hi in e1. injection e1 as <-.
+    cbn [attrs_current]. eexists. split; [exact N1|]. cbn. auto.
+Qed.
+
+(* attribute assignments: the producer concerned must be exempted *)
+Lemma inv_pdo_attr s i pd c per :
+  X (PPdo i) -> inv X s -> nth_error (st_pdos s) i = Some pd ->
+  inv X (set_pdo s (st_bus s) i (mkPd c (pd_nvars pd) (pd_data pd) per (pd_task pd))).
+Proof.
+  intros HX I Hi.
+  apply inv_frame with (s := s) (p := PPdo i); auto; try framed frame_pdo.
+  - destruct I as [A _]. eapply AInv_ext; [exact A|]. intros q.
+    destruct (prod_eq_dec q (PPdo i)) as [->|N].
+    + rewrite (proj1 (task_set_pdo s _ i _ pd Hi)). cbn. rewrite Hi. reflexivity.
+    + apply frame_pdo; auto.
+  - intros pt H. rewrite (proj1 (task_set_pdo s _ i _ pd Hi)) in H. cbn in H.
+    destruct I as [_ C]. assert (task_of s (PPdo i) = Some pt) as T0 by (cbn; rewrite Hi; auto).
+    specialize (C (PPdo i) pt T0). destruct C as [CF _]. split; [exact CF|]. intros NX. contradiction.
+Qed.
+
+Lemma inv_sync_attr s p :
+  X PSync -> inv X s -> inv X (set_sync s (st_bus s) (mkSy p (sy_task (st_sync s)))).
+Proof.
+  intros HX I.
+  apply inv_frame with (s := s) (p := PSync); auto; try framed frame_sync.
+  - destruct I as [A _]. eapply AInv_ext; [exact A|]. intros q; destruct q; reflexivity.
+  - intros pt H. destruct I as [_ C]. specialize (C PSync pt H). destruct C as [CF _].
+    split; [exact CF|]. intros NX. contradiction.
 Qed.
 
 (* ------------------------------------------------------------------ Network.disconnect *)
@@ -530,7 +563,7 @@ Proof.
       * apply K. exists j, pd', pt. auto.
 Qed.
 
-Lemma inv_disconnect s : inv s -> inv (disconnect s).
+Lemma inv_disconnect s : inv X s -> inv X (disconnect s).
 Proof.
   intros [(C & D & N) K]. unfold disconnect.
   destruct (stop_all (st_bus s) (st_pdos s)) as [b1 l1] eqn:E.
@@ -562,12 +595,13 @@ Proof.
     assert (held_by_pdo (st_pdos s) t) as Hd by (exists i, pd, qt; auto).
     rewrite (Kd t Hd) in Ht. discriminate.
   - intros q qt Hq. destruct q as [| | |i]; try (rewrite PN in Hq; discriminate);
-      rewrite SAME in Hq by discriminate; specialize (K _ _ Hq); cbn in K |- *; auto.
-    destruct K as (k1 & k2 & k3 & k4 & _). repeat split; auto. discriminate.
+      rewrite SAME in Hq by discriminate; specialize (K _ _ Hq); destruct K as [KF KA];
+      (split; [|exact KA]); cbn in KF |- *; auto.
+    destruct KF as (k1 & k2 & k3 & k4 & _). repeat split; auto. discriminate.
 Qed.
 
 (* ------------------------------------------------------------------ the invariant *)
-Lemma inv_init c : inv (init c).
+Lemma inv_init c : inv X (init c).
 Proof.
   split; [split; [|split]|].
   - intros p pt H. destruct p; cbn in H; try discriminate.
@@ -579,9 +613,9 @@ Proof.
     rewrite nth_error_map in H. destruct (nth_error (cf_pdos c) i); discriminate.
 Qed.
 
-Lemma step_inv s o : inv s -> inv (step_st s o).
+Lemma step_inv s o : (forall p, touches o p = true -> X p) -> inv X s -> inv X (step_st s o).
 Proof.
-  intros I. unfold step_st. destruct o; cbn [step].
+  intros HX I. unfold step_st. destruct o; cbn [step].
   - apply inv_sync_start; auto.
   - cbn [fst]. apply inv_sync_stop; auto.
   - destruct (nth_error (st_pdos s) i) as [pd|] eqn:Hi; [|exact I].
@@ -608,16 +642,40 @@ Proof.
   - apply inv_guard_start; auto.
   - cbn [fst]. apply inv_guard_stop; auto.
   - cbn [fst]. apply inv_disconnect; auto.
+  - cbn [fst]. apply inv_sync_attr; auto.
+  - destruct (nth_error (st_pdos s) i) as [pd|] eqn:Hi; [|exact I]. cbn [fst].
+    apply inv_pdo_attr; auto. apply HX. cbn. apply Nat.eqb_refl.
+  - destruct (nth_error (st_pdos s) i) as [pd|] eqn:Hi; [|exact I]. cbn [fst].
+    apply inv_pdo_attr; auto. apply HX. cbn. apply Nat.eqb_refl.
 Qed.
 
-Lemma run_inv ops : forall s, inv s -> inv (run s ops).
-Proof. induction ops as [|o r IH]; intros s I; cbn; auto. apply IH. apply step_inv. auto. Qed.
+Lemma run_inv ops : forall s, (forall o p, In o ops -> touches o p = true -> X p) -> inv X s -> inv X (run s ops).
+Proof.
+  induction ops as [|o r IH]; intros s HX I; cbn; auto. apply IH.
+  - intros o' p Hin. apply HX. right. auto.
+  - apply step_inv; auto. intros p. apply HX. left. auto.
+Qed.
+End Inv.
 
-Lemma reachable_inv c ops : inv (run (init c) ops).
-Proof. apply run_inv. apply inv_init. Qed.
+(* no producer exempted from nothing: the invariant that holds for every call sequence, attribute
+   assignments included, leaves the attribute clause out for all producers *)
+Definition XT : prod -> Prop := fun _ => True.
+
+Lemma reachable_inv c ops : inv XT (run (init c) ops).
+Proof. apply run_inv; [intros; exact I|apply inv_init]. Qed.
+
+Lemma step_inv_T s o : inv XT s -> inv XT (step_st s o).
+Proof. apply step_inv. intros; exact I. Qed.
+
+Lemma inv_exempt X1 X2 s : inv X1 s ->
+  (forall q pt, task_of s q = Some pt -> ~ X2 q -> attrs_current s q pt) -> inv X2 s.
+Proof.
+  intros [A C] H. split; auto. intros q pt Hq. destruct (C q pt Hq) as [CF _]. split; auto.
+Qed.
+
 
 (* ------------------------------------------------------------------ consequences for single calls *)
-Lemma none_running_of s p : inv s -> task_of s p = None -> none_running s p.
+Lemma none_running_of X s p : inv X s -> task_of s p = None -> none_running s p.
 Proof.
   intros [(_ & _ & N) _] H. split; auto. intros t Ht. destruct (N t Ht) as (q & qt & Hq & E).
   exists q, qt. repeat split; auto. intros ->. congruence.
@@ -633,7 +691,7 @@ Qed.
 
 Lemma stopped_means_none c ops p :
   none_running (step_st (run (init c) ops) (stop_op p)) p.
-Proof. apply none_running_of; [apply step_inv, reachable_inv|apply task_after_stop]. Qed.
+Proof. apply (none_running_of XT); [apply step_inv_T, reachable_inv|apply task_after_stop]. Qed.
 
 Lemma heartbeat_zero_stops c ops :
   let s := run (init c) ops in
@@ -643,11 +701,11 @@ Lemma heartbeat_zero_stops c ops :
      0 < hb_ms (st_hb s) /\ bt_period (bus_get (st_bus s) (pt_tid pt)) = hb_ms (st_hb s)).
 Proof.
   intros s. pose proof (reachable_inv c ops) as I. fold s in I. split; [|split].
-  - apply none_running_of; [apply step_inv; auto|reflexivity].
-  - intros ms Hms. apply none_running_of; [apply step_inv; auto|].
+  - apply (none_running_of XT); [apply step_inv_T; auto|reflexivity].
+  - intros ms Hms. apply (none_running_of XT); [apply step_inv_T; auto|].
     unfold step_st. cbn [step]. unfold hb_start1. replace (0 <? ms) with false by lia. reflexivity.
   - intros pt H. destruct I as [(C & _) K]. specialize (C _ _ H). specialize (K _ _ H).
-    cbn in K. destruct C as (_ & _ & _ & c4 & _). destruct K as (_ & _ & k3 & k4 & _). split; auto. congruence.
+    destruct K as [K _]. cbn in K. destruct C as (_ & _ & _ & c4 & _). destruct K as (_ & _ & k3 & k4 & _). split; auto. congruence.
 Qed.
 
 Lemma old_dead b old x : (pt_tid old < length b)%nat ->
@@ -657,8 +715,8 @@ Proof.
   cbn. unfold pt_stop. apply alive_stop_eq.
 Qed.
 
-Lemma started_intro s s' p id d per r :
-  inv s ->
+Lemma started_intro X s s' p id d per r :
+  inv X s ->
   st_bus s' = stop_opt (st_bus s) (task_of s p) ++ [mkB id d per r true] ->
   task_of s' p = Some (mkP (length (st_bus s)) id d per r) ->
   started s s' p id d per r.
@@ -668,33 +726,80 @@ Proof.
   - intros old H. rewrite B, H. apply old_dead. apply alive_lt. eapply carries_alive; eauto.
 Qed.
 
+Definition eff_period (arg attr : option Z) : option Z := match arg with Some x => Some x | None => attr end.
+
 Lemma restart_leaves_one c ops :
   let s := run (init c) ops in
-  (forall x, snd (step s (SyncStart (Some x))) = None ->
-     started s (step_st s (SyncStart (Some x))) PSync SYNC_COB_ID [] x false) /\
-  (forall i x pd, nth_error (st_pdos s) i = Some pd -> snd (step s (PdoStart i (Some x))) = None ->
-     started s (step_st s (PdoStart i (Some x))) (PPdo i) (pd_cob pd) (pd_data pd) x false) /\
+  (forall p x, eff_period p (sy_period (st_sync s)) = Some x -> snd (step s (SyncStart p)) = None ->
+     started s (step_st s (SyncStart p)) PSync SYNC_COB_ID [] x false) /\
+  (forall i p x pd, nth_error (st_pdos s) i = Some pd -> eff_period p (pd_period pd) = Some x ->
+     snd (step s (PdoStart i p)) = None ->
+     started s (step_st s (PdoStart i p)) (PPdo i) (pd_cob pd) (pd_data pd) x false) /\
   (forall ms, 0 < ms -> snd (step s (HbStart ms)) = None ->
      started s (step_st s (HbStart ms)) PHb (HB_BASE + hb_node (st_hb s)) [hb_state (st_hb s)] ms false) /\
   (forall x, snd (step s (GuardStart x)) = None ->
      started s (step_st s (GuardStart x)) PGuard (HB_BASE + gd_node (st_guard s)) [] x true).
 Proof.
   intros s. pose proof (reachable_inv c ops) as I. fold s in I. split; [|split; [|split]].
-  - intros x. unfold step_st. cbn [step]. unfold sync_start, send_periodic.
+  - intros p x. unfold step_st, eff_period. cbn [step]. unfold sync_start, send_periodic. intros ->.
     destruct (x =? 0); [discriminate|]. destruct (st_conn s); [|discriminate]. intros _. cbn [fst].
-    apply started_intro; auto. cbn. rewrite stop_opt_length. reflexivity.
-  - intros i x pd Hi. unfold step_st. cbn [step]. rewrite Hi. unfold pdo_start1, send_periodic.
+    apply (started_intro XT); auto. cbn. rewrite stop_opt_length. reflexivity.
+  - intros i p x pd Hi. unfold step_st, eff_period. cbn [step]. rewrite Hi. unfold pdo_start1, send_periodic. intros ->.
     destruct (x =? 0); [discriminate|]. destruct (st_conn s); [|discriminate]. intros _. cbn [fst].
-    apply started_intro; auto.
+    apply (started_intro XT); auto.
     + cbn. rewrite Hi. reflexivity.
     + rewrite (proj1 (task_set_pdo s _ i _ pd Hi)). cbn. rewrite stop_opt_length. reflexivity.
   - intros ms Hms. unfold step_st. cbn [step]. unfold hb_start1, send_periodic.
     replace (0 <? ms) with true by lia. destruct (st_conn s); [|discriminate]. intros _. cbn [fst].
-    apply started_intro; auto. cbn. rewrite stop_opt_length. reflexivity.
+    apply (started_intro XT); auto. cbn. rewrite stop_opt_length. reflexivity.
   - intros x. unfold step_st. cbn [step]. unfold guard_start, send_periodic.
     destruct (st_conn s); [|discriminate]. intros _. cbn [fst].
-    apply started_intro; auto. cbn. rewrite stop_opt_length. reflexivity.
+    apply (started_intro XT); auto. cbn. rewrite stop_opt_length. reflexivity.
 Qed.
+
+(* a start that returns normally re-synchronises the task with the assignable attributes *)
+Lemma start_sets_attrs s :
+  (forall p, snd (step s (SyncStart p)) = None ->
+     forall pt, task_of (step_st s (SyncStart p)) PSync = Some pt -> attrs_current (step_st s (SyncStart p)) PSync pt) /\
+  (forall i p, snd (step s (PdoStart i p)) = None ->
+     forall pt, task_of (step_st s (PdoStart i p)) (PPdo i) = Some pt ->
+                attrs_current (step_st s (PdoStart i p)) (PPdo i) pt).
+Proof.
+  split.
+  - intros p. unfold step_st. cbn [step]. unfold sync_start, send_periodic.
+    destruct (match p with Some x => Some x | None => sy_period (st_sync s) end) as [x|]; [|discriminate].
+    destruct (x =? 0); [discriminate|]. destruct (st_conn s); [|discriminate]. intros _ pt. cbn.
+    intros H; injection H as <-. exists x. auto.
+  - intros i p. unfold step_st. cbn [step].
+    destruct (nth_error (st_pdos s) i) as [pd|] eqn:Hi; [|discriminate].
+    unfold pdo_start1, send_periodic.
+    destruct (match p with Some x => Some x | None => pd_period pd end) as [x|]; [|discriminate].
+    destruct (x =? 0); [discriminate|]. destruct (st_conn s); [|discriminate]. intros _ pt. cbn [fst].
+    match goal with |- task_of (set_pdo s ?b i ?pd1) _ = _ -> _ =>
+      destruct (task_set_pdo s b i pd1 pd Hi) as [T1 N1] end.
+    rewrite T1. cbn [pd_task]. intros H; injection H as <-.
+    cbn [attrs_current]. eexists. split; [exact N1|]. cbn. auto.
+Qed.
+
+(* ... and it stays synchronised until the application assigns one of those attributes again *)
+Lemma attrs_stay_current c ops1 ops2 p :
+  let s := run (init c) ops1 in
+  (forall pt, task_of s p = Some pt -> attrs_current s p pt) ->
+  (forall o, In o ops2 -> touches o p = false) ->
+  forall pt, task_of (run s ops2) p = Some pt -> attrs_current (run s ops2) p pt.
+Proof.
+  intros s H0 HT pt Hpt.
+  assert (inv (fun q => q <> p) s) as I.
+  { apply (inv_exempt XT); [apply reachable_inv|]. intros q qt Hq NX.
+    destruct (prod_eq_dec q p) as [->|N]; [auto|]. exfalso. apply NX. exact N. }
+  assert (inv (fun q => q <> p) (run s ops2)) as I2.
+  { apply run_inv; auto. intros o q Hin Tq ->. rewrite (HT o Hin) in Tq. discriminate. }
+  destruct I2 as [_ C]. destruct (C p pt Hpt) as [_ CA]. apply CA. intros N. apply N. reflexivity.
+Qed.
+
+Lemma frames_current c ops :
+  let s := run (init c) ops in forall p pt, task_of s p = Some pt -> frame_current s p pt.
+Proof. intros s p pt H. destruct (reachable_inv c ops) as [_ C]. apply (C p pt H). Qed.
 
 Lemma disconnect_stops_pdo_tasks c ops :
   let s' := step_st (run (init c) ops) Disconnect in
@@ -702,7 +807,7 @@ Lemma disconnect_stops_pdo_tasks c ops :
   (forall t, bus_alive (st_bus s') t = true ->
      exists q qt, (forall i, q <> PPdo i) /\ task_of s' q = Some qt /\ pt_tid qt = t).
 Proof.
-  intros s'. assert (inv s') as I by (apply step_inv, reachable_inv).
+  intros s'. assert (inv XT s') as I by (apply step_inv_T, reachable_inv).
   assert (forall i, task_of s' (PPdo i) = None) as PN.
   { intros i. unfold s', step_st. cbn [step fst]. unfold disconnect.
     destruct (stop_all _ _) as [b1 l1] eqn:E. destruct (stop_all_spec _ _ _ _ E) as (L & _). subst l1.
@@ -730,8 +835,8 @@ Proof.
   - intros E; injection E as <- <-. intros pt H. congruence.
 Qed.
 
-Lemma wire_of_synced s i pd pt :
-  inv s -> nth_error (st_pdos s) i = Some pd -> synced pd -> pd_task pd = Some pt ->
+Lemma wire_of_synced X s i pd pt :
+  inv X s -> nth_error (st_pdos s) i = Some pd -> synced pd -> pd_task pd = Some pt ->
   bt_data (bus_get (st_bus s) (pt_tid pt)) = pd_data pd.
 Proof.
   intros [(C & _) _] Hi S T. assert (task_of s (PPdo i) = Some pt) as H by (cbn; rewrite Hi; auto).
@@ -749,8 +854,8 @@ Lemma pdo_payload_current c ops o i :
     bt_data (bus_get (st_bus (step_st s o)) (pt_tid pt)) = pd_data pd.
 Proof.
   intros Hc s R pd pt Hi T.
-  assert (inv (step_st s o)) as I by (apply step_inv, reachable_inv).
-  apply (wire_of_synced _ i pd pt I Hi); auto. clear I T pt.
+  assert (inv XT (step_st s o)) as I by (apply step_inv_T, reachable_inv).
+  apply (wire_of_synced XT _ i pd pt I Hi); auto. clear I T pt.
   unfold step_st in Hi. destruct Hc as [[p ->]|[->|(k & v & ->)]]; cbn [step] in Hi, R.
   - destruct (nth_error (st_pdos s) i) as [pd0|] eqn:H0; [|discriminate].
     destruct (pdo_start1 _ _ _ _) as [[b1 pd1] r] eqn:E. cbn [fst] in Hi.
@@ -764,5 +869,7 @@ Proof.
     rewrite (proj2 (task_set_pdo s b1 i pd1 pd0 H0)) in Hi. injection Hi as <-. eapply pdo_update1_synced; eauto.
 Qed.
 
-Lemma no_leak_invariant c ops : inv (run (init c) ops).
-Proof. apply reachable_inv. Qed.
+Lemma no_leak_invariant c ops :
+  let s := run (init c) ops in
+  AInv (st_bus s) (task_of s) /\ (forall p pt, task_of s p = Some pt -> frame_current s p pt).
+Proof. intros s. split; [apply reachable_inv|apply frames_current]. Qed.
